@@ -207,7 +207,7 @@ class Job:
             if self.genspec:
                 # spec -> impl: TLC enumerates behaviours / inputs, the harness replays them on the real code
                 genfile = os.path.join(cache_dir, self.name + ".gen.ndjson")
-                g = run_tlc(self.name + "-gen", self.genspec[0] + ".tla", self.genspec[1], workers=1, accel=self.accel, mem=self.mem, keep=("PROG", "SCEN"))
+                g = run_tlc(self.name + "-gen", self.genspec[0] + ".tla", self.genspec[1], workers=1, accel=self.accel, mem=self.mem, keep=("PROG", "SCEN", "UNIVERSE", "EDGE"))
                 with open(genfile, "w") as fh:
                     for item in g.get("kept", []):
                         fh.write(json.dumps(item) + "\n")
